@@ -27,7 +27,7 @@ TITLE = 'METAL = inlining'
 LEVEL = 'exploration'
 SHARDS = {'quick': 16, 'thorough': 16}
 FLOOR = {'quick': 800, 'thorough': 10000}
-REQUIRED_MONITORS = {'pairs-compared': 2000, 'uses-with-fillers': 800, 'extend-chains': 150}
+REQUIRED_MONITORS = {'pairs-compared': 2000, 'uses-with-fillers': 800, 'extend-chains': 150, 'switch-boundary-compared': 100}
 RULE = ('a case = (library of 1..3 macros with 0..3 define-slot regions each - repeated slot names allowed, nested uses of '
         'earlier macros inside bodies, extend-macro chains up to length 3 - , caller with 1..3 uses filling random subsets of '
         'slots plus unknown names, uses inside tal:repeat / tal:define, two consecutive uses in one scope, local and global '
@@ -376,6 +376,40 @@ def run(ctx):
                     {'kind': 'metal', 'lib': libsrc, 'caller': callsrc, 'inlined': inl, 'env': env, 'placement': placement})
     finally:
         shutil.rmtree(tmp, ignore_errors=True)
+    layer_switch_across_boundaries(ctx, 12 if ctx.quick else 100)
+
+
+def layer_switch_across_boundaries(ctx, n):
+    """tal:switch on one side and its tal:case elements on the other side of a macro / filler boundary:
+    inlining gives them an ordinary meaning."""
+    rng = ctx.rng
+    for case in range(n):
+        k = rng.choice([1, 2, 3])
+        shape = rng.choice(['cases-in-filler', 'cases-in-inplace-macro'])     # (cases in a filler whose switch is in the macro body are rejected at compile time: no lexical switch)
+        cases = '<b tal:case="1">one</b><b tal:case="2">two</b><b tal:case="default">other</b>'
+        if shape == 'cases-in-filler':
+            lib = '<m metal:define-macro="m">[<i metal:define-slot="s">d</i>]</m>'
+            caller = '<div tal:switch="k"><u metal:use-macro="lib.macros[\'m\']"><f metal:fill-slot="s">%s</f></u></div>' % cases
+            inl = '<div tal:switch="k"><m>[<f>%s</f>]</m></div>' % cases
+        elif shape == 'switch-in-macro-cases-in-filler':
+            lib = '<m metal:define-macro="m"><d tal:switch="k">[<i metal:define-slot="s"><b tal:case="1">md</b></i>]</d></m>'
+            caller = '<u metal:use-macro="lib.macros[\'m\']"><f metal:fill-slot="s">%s</f></u>' % cases
+            inl = '<m><d tal:switch="k">[<f>%s</f>]</d></m>' % cases
+        else:
+            lib = '<m/>'
+            caller = '<div tal:switch="k"><p metal:define-macro="q">%s</p></div>' % cases
+            inl = '<div tal:switch="k"><p>%s</p></div>' % cases
+        got = render('<x>' + caller + '</x>', {'k': k}, lib=lib)
+        want = render('<x>' + inl + '</x>', {'k': k})
+        ctx.mon('switch-boundary-compared')
+        ctx.case(key=('switch-boundary', shape, k), nontrivial=True)
+        if got != want:
+            key = 'switch-boundary-output-differs'
+            if got[0].startswith('RAISED UnboundLocalError') or got[0].startswith('RAISED AssertionError'):
+                key = 'case-separated-from-its-switch-by-a-function-boundary'
+            ctx.violation(key, 'shape %s, k=%d\n  LIB %r\n  CALLER %r\n  with METAL %r\n  inlined %r' % (shape, k, lib, caller, got, want),
+                          {'kind': 'metal', 'lib': lib, 'caller': '<x>' + caller + '</x>', 'inlined': '<x>' + inl + '</x>',
+                           'env': {'k': k}, 'placement': 'other'})
 
 
 def replay(data):
